@@ -229,6 +229,64 @@ def make_harness(pats: list[tuple], node_filter=None):
     return harness
 
 
+# texts that are close to each other as strings but are different patterns (white space inside a
+# quoted regex is part of the regex), and layouts of one pattern that differ only between tokens
+SIMILAR_REGEXES = ["a b", "a  b", "a\tb", "a b$", " a", "a", "a +b"]
+SIMILAR_VALUES = ["a b", "a  b", "a\tb", " a", "a", "a b c", "ab"]
+LAYOUTS = ["plain", "spread", "newlines"]
+
+
+def _layout(text: str, how: str) -> str:
+    """Re-space a rendered pattern between tokens only (quoted regexes are left alone)."""
+    if how == "plain":
+        return text
+    sep = "  " if how == "spread" else "\n\t"
+    out, quoted = [], False
+    for ch in text:
+        if ch == '"':
+            quoted = not quoted
+        out.append(sep if (ch == " " and not quoted) else ch)
+    return "".join(out)
+
+
+def similar_harness(e):
+    """Two textually similar patterns compiled one after the other in one process: the second
+    answer must be that of the second pattern."""
+    from pyoak.match.pattern import MultiPatternMatcher, NodeMatcher
+
+    reset_all()
+    i, j = e.choice(len(SIMILAR_REGEXES), "first_regex"), e.choice(len(SIMILAR_REGEXES), "second_regex")
+    l1, l2 = e.pick(LAYOUTS, "first_layout"), e.pick(LAYOUTS, "second_layout")
+    vno = e.choice(len(SIMILAR_VALUES), "value")
+    node = build(R("VStr2", {"a": SIMILAR_VALUES[vno], "b": "x"}))
+    descs = [T(["VStr2"], ("a", ("val", ("re", SIMILAR_REGEXES[k])), "c"), ("b", None, None)) for k in (i, j)]
+    texts = [_layout(PR.render(descs[0]), l1), _layout(PR.render(descs[1]), l2)]
+    via = e.pick(["from_pattern", "MultiPatternMatcher"], "entry")
+    scenario: dict[str, Any] = {"first_pattern": texts[0], "second_pattern": texts[1], "value": SIMILAR_VALUES[vno], "entry": via}
+    if via == "from_pattern":
+        for desc, text in zip(descs, texts):
+            matcher, msg = NodeMatcher.from_pattern(text)
+            if matcher is None:
+                scenario.update(pattern=text, message=msg)
+                e.fail("well-formed-pattern-does-not-compile", scenario=scenario)
+            ok, caps = matcher.match(node)
+            _compare(e, text, desc, node, ok, dict(caps), dict(scenario, compiled="first" if desc is descs[0] else "second"))
+    else:
+        mm = MultiPatternMatcher([("first", texts[0]), ("second", texts[1])])
+        got = mm.match(node)
+        want = None
+        for name, desc in zip(("first", "second"), descs):
+            ok, caps = PR.match_tree(desc, node, {}, CLASSES)
+            if ok:
+                want = (name, caps)
+                break
+        if (got is None) != (want is None) or (got is not None and (got[0] != want[0] or set(got[1]) != set(want[1]))):
+            scenario.update(got=None if got is None else got[0], expected=None if want is None else want[0])
+            e.fail("multi-matcher-confuses-similar-patterns", scenario=scenario)
+    e.distinct((i, j, l1, l2, vno, via))
+    return scenario
+
+
 RULES = [
     ("leafcap", T(["VLeaf"], ("v", None, "x"))), ("mixed_first", T(["VMixed"], ("first", None, "f"))), ("anynode", T("*")),
     ("mixed_tail", T(["VMixed"], ("items", ("seq", [(T(["VLeaf"]), "h")], ("*", "t")), None))), ("many", T(["VMany"], ("items", None, None))),
@@ -301,6 +359,7 @@ def spec(tier: str, seed: int) -> Spec:
     var = "selectors: pattern derivation, node, cache state"
     fams = [Family(f"single[{k}:{k + chunk}]", make_harness(single[k : k + chunk]), variables=var) for k in range(0, len(single), chunk)]
     fams.append(Family("multi-field", make_harness(multi), variables=var))
+    fams.append(Family("similar-pattern-texts", similar_harness, variables="selectors: two regexes that differ in white space, two token layouts, value, entry point"))
     fams.append(Family("multi-pattern-matcher", multi_harness, variables="selectors: ordered rule selection, rules argument, node"))
     return Spec(
         families=fams,
